@@ -51,6 +51,9 @@ Definition below (num : Z) (max : option Z) : bool :=
 Fixpoint cmem (key : N) (l : list (N * bool)) : bool :=
   match l with [] => false | (k, _) :: l' => N.eqb k key || cmem key l' end.
 
+Fixpoint clook (key : N) (l : list (N * bool)) : option bool :=
+  match l with [] => None | (k, b) :: l' => if N.eqb k key then Some b else clook key l' end.
+
 Fixpoint cdel (key : N) (l : list (N * bool)) : list (N * bool) :=
   match l with [] => [] | (k, b) :: l' => if N.eqb k key then l' else (k, b) :: cdel key l' end.
 
@@ -88,12 +91,12 @@ Definition cstep (st : cstate) (l : clabel) : coutcome :=
   | IncSend key =>
     if negb (p_send st) then CStuck 1
     else if negb (below (num_send st) (max_send st)) then CPanic 1      (* assert!(can_inc_num_send_streams()) *)
-    else if cmem key (counted st) then CPanic 2                         (* assert!(!stream.is_counted) *)
+    else if cmem key (counted st) then CStuck 9     (* assert!(!stream.is_counted): callers' discipline, checked by the lock-step *)
     else COk (upd_send st (max_send st) (num_send st + 1) ((key, true) :: counted st)) []
   | IncRecv key =>
     if negb (p_recv st) then CStuck 2
     else if negb (below (num_recv st) (max_recv st)) then CPanic 3
-    else if cmem key (counted st) then CPanic 4
+    else if cmem key (counted st) then CStuck 10
     else COk (upd_recv st (num_recv st + 1) ((key, false) :: counted st)) []
   | IncLReset =>
     if negb (p_lreset st) then CStuck 3
@@ -127,8 +130,9 @@ Definition cstep (st : cstate) (l : clabel) : coutcome :=
       match r1 with
       | COk st1 _ =>
         if negb (t_sched_reset o) && cmem key (counted st1) then
-          (* dec_num_streams *)
-          if t_local o then
+          (* dec_num_streams; the side is recomputed from the stream id by the code *)
+          if negb (match clook key (counted st1) with Some b => Bool.eqb b (t_local o) | None => false end) then CStuck 8
+          else if t_local o then
             if num_send st1 <=? 0 then CPanic 8
             else COk (upd_send st1 (max_send st1) (num_send st1 - 1) (cdel key (counted st1))) []
           else
